@@ -63,13 +63,11 @@ impl Quil for CircuitDefinition {
         }
         writeln!(writer, ":")?;
         for instruction in &self.instructions {
-            let lines = match fall_back_to_debug {
-                true => instruction.to_quil_or_debug(),
-                false => instruction.to_quil()?,
-            };
-            for line in lines.split('\n') {
-                writeln!(writer, "{INDENT}{line}")?;
-            }
+            // One indent per instruction: a line break inside an instruction's text belongs to a
+            // quoted string and must not be followed by indentation.
+            write!(writer, "{INDENT}")?;
+            instruction.write(writer, fall_back_to_debug)?;
+            writeln!(writer)?;
         }
 
         Ok(())
